@@ -5,6 +5,7 @@ import (
 	"go/ast"
 	"go/token"
 	"go/types"
+	"regexp"
 	"sort"
 	"strconv"
 	"strings"
@@ -636,118 +637,91 @@ func c12Focus(c *Ctx) {
 			r.Check(pass, "C12.J3", fmt.Sprintf("error#variant%d#pass-through", vi+1), "", "name, message and trace are the arguments unchanged", "sourceShapeName / resultMessage / trace are not error()'s arguments passed through")
 		}
 	}
-	// generator side: the error(...) template and its call sites
+	// generator side, decided on the texts the generator emits (E-sym, helpers interpreted from the functions nobody else in
+	// the package calls): every `X := error(<name>, <node>, message, [<traces>])` line names, as <node>, a variable that
+	// another line emitted on the same route binds from the input graph: `target_class[<node>] with ...` or
+	// `<node> = <node set>[_]`
 	gen := p.Pkg("internal/generator")
 	if gen == nil {
 		return
 	}
-	info := gen.TypesInfo
-	var wrap *ast.FuncDecl
-	var errCall *ast.CallExpr
-	for _, f := range gen.Syntax {
-		for _, d := range f.Decls {
-			fd, ok := d.(*ast.FuncDecl)
-			if !ok || fd.Body == nil {
+	errRe := regexp.MustCompile(`:= error\(\s*(‹[^›]*›|"[^"]*")\s*,\s*(‹[^›]*›|[A-Za-z_][A-Za-z0-9_]*)\s*,\s*message\s*,\s*\[(.*)\]\s*\)`)
+	type errEv struct {
+		name, node string
+		nameSym    *Sym
+		pos        token.Pos
+		fn         string
+	}
+	seenEv := map[string]bool{}
+	total := 0
+	for _, root := range symRoots(gen) {
+		var texts []string
+		var evs []errEv
+		proto := &symWalker{Inline: samePkgInline(gen)}
+		proto.OnText = func(w *symWalker, at ast.Expr, text *Sym) {
+			tpl := text.Template()
+			texts = append(texts, tpl)
+			if m := errRe.FindStringSubmatch(tpl); m != nil {
+				ev := errEv{name: m[1], node: m[2], pos: at.Pos(), fn: w.FuncName()}
+				// the symbolic value of the name hole
+				if text.K == symConcat {
+					for _, part := range text.Parts {
+						if part.K != symConst && "‹"+part.String()+"›" == m[1] {
+							ev.nameSym = part
+						}
+					}
+				}
+				evs = append(evs, ev)
+			}
+		}
+		p.SymWalk(gen, root, proto, nil)
+		for _, ev := range evs {
+			k := relOf(gen) + "." + root.Name.Name + "/" + ev.fn + "#error-call"
+			if seenEv[k+ev.node] {
 				continue
 			}
-			ast.Inspect(fd.Body, func(n ast.Node) bool {
-				call, ok := n.(*ast.CallExpr)
-				if !ok || funcFullName(calleeOf(info, call)) != "fmt.Sprintf" || len(call.Args) < 2 {
-					return true
+			seenEv[k+ev.node] = true
+			total++
+			bound := ""
+			for _, t := range texts {
+				tt := strings.TrimSpace(t)
+				if strings.HasPrefix(tt, "target_class["+ev.node+"]") {
+					bound = "by the target_class line emitted on the same route"
 				}
-				if s, ok := constString(info, call.Args[0]); ok && strings.Contains(s, ":= error(") {
-					wrap, errCall = fd, call
-				}
-				return true
-			})
-		}
-	}
-	if wrap == nil {
-		r.Unknown("C12.J3", "error-template", "", "no `… := error(…)` template found in the generator")
-		return
-	}
-	// template holes: result var, name literal, node var, trace list
-	format, _ := constString(info, errCall.Args[0])
-	holes, _ := scanFormat(format, ctxCode)
-	params := map[types.Object]int{}
-	i := 0
-	for _, fld := range wrap.Type.Params.List {
-		for _, name := range fld.Names {
-			params[info.Defs[name]] = i
-			i++
-		}
-	}
-	argParam := func(e ast.Expr) int {
-		idx := -1
-		ast.Inspect(e, func(n ast.Node) bool {
-			if id, ok := n.(*ast.Ident); ok {
-				if k, ok := params[info.Uses[id]]; ok {
-					idx = k
+				if strings.HasPrefix(tt, ev.node+" = ") && strings.HasSuffix(tt, "[_]") {
+					bound = "by iteration over a node set"
 				}
 			}
-			return true
-		})
-		return idx
-	}
-	if len(holes) != 4 || len(errCall.Args) != 5 {
-		r.Unknown("C12.J3", "error-template", p.Pos(errCall.Pos()), fmt.Sprintf("unexpected shape of the error template %q", format))
-		return
-	}
-	nameIdx, nodeIdx := argParam(errCall.Args[2]), argParam(errCall.Args[3])
-	// the trace list is strings.Join(<bindings>, ",") between [ ]
-	traceOK := false
-	if call, ok := ast.Unparen(errCall.Args[4]).(*ast.CallExpr); ok && funcFullName(calleeOf(info, call)) == "strings.Join" && strings.Contains(format, "[%s]") {
-		traceOK = true
-	}
-	r.Check(traceOK, "C12.J3", relOf(gen)+"."+wrap.Name.Name+"#trace-list", p.Pos(errCall.Pos()), "the trace argument is the bracketed list of the branch's trace bindings", "the trace argument of error(…) is not the list of the branch's trace bindings")
-	// the name is rendered as a string literal
-	nameLit := false
-	if call, ok := ast.Unparen(errCall.Args[2]).(*ast.CallExpr); ok {
-		if f, ok := calleeOf(info, call).(*types.Func); ok && strings.Contains(f.Name(), "RegoString") {
-			nameLit = true
-		}
-	}
-	r.Check(nameLit && nameIdx >= 0, "C12.J4", relOf(gen)+"."+wrap.Name.Name+"#name-literal", p.Pos(errCall.Pos()), "the first argument of error(…) is the name parameter rendered as a string literal", "the first argument of error(…) is not the name parameter rendered as a string literal")
-	if nodeIdx < 0 || nameIdx < 0 {
-		r.Unknown("C12.J3", "error-template-args", p.Pos(errCall.Pos()), "the node / name arguments of the error template are not parameters of the emitting function")
-		return
-	}
-	// call sites of wrap: the node argument must be a variable bound from the input graph in the emitted lines
-	ord := ordinal{}
-	for _, f := range gen.Syntax {
-		for _, d := range f.Decls {
-			fd, ok := d.(*ast.FuncDecl)
-			if !ok || fd.Body == nil {
-				continue
-			}
-			ast.Inspect(fd.Body, func(n ast.Node) bool {
-				call, ok := n.(*ast.CallExpr)
-				if !ok {
-					return true
-				}
-				if id, ok := call.Fun.(*ast.Ident); !ok || id.Name != wrap.Name.Name || len(call.Args) <= nodeIdx {
-					return true
-				}
-				k := ord.next(relOf(gen) + "." + fd.Name.Name + "#error-call")
-				nodeArg := ast.Unparen(call.Args[nodeIdx])
-				nameArg := ast.Unparen(call.Args[nameIdx])
-				// J4: name
-				nameOK := false
-				if s, ok := constString(info, nameArg); ok && s == "nested" {
+			r.Check(bound != "", "C12.J3", k+"#node", p.Pos(ev.pos), "the focus node variable is bound "+bound, "the node handed to error(…) ("+ev.node+") is not a variable that the emitted code binds from the input graph (target_class line or iteration over a node set)")
+			// J4: the name is a string literal made from the validation's name or the constant `nested`
+			nameOK, nameLit := false, false
+			if ev.nameSym != nil && ev.nameSym.K == symCall && strings.Contains(ev.nameSym.Fn, "RegoString") && len(ev.nameSym.Parts) == 1 {
+				nameLit = true
+				arg := ev.nameSym.Parts[0]
+				if c, ok := arg.ConstString(); ok && c == "nested" {
 					nameOK = true
 				}
-				if sel, ok := nameArg.(*ast.SelectorExpr); ok && sel.Sel.Name == "Name" {
-					if tv, ok := info.Types[sel.X]; ok && typeName(tv.Type) == "TopLevelExpression" {
+				if arg.K == symField && arg.Name == "Name" && arg.X != nil {
+					t := arg.RecvT
+					if t == nil {
+						t = arg.X.Type
+					}
+					if t == nil && arg.X.Obj != nil {
+						t = arg.X.Obj.Type()
+					}
+					if t != nil && typeName(t) == "TopLevelExpression" {
 						nameOK = true
 					}
 				}
-				r.Check(nameOK, "C12.J4", k+"#name", p.Pos(call.Pos()), "sourceShapeName is the validation's name or `nested`", "sourceShapeName is "+types.ExprString(nameArg)+", neither the top-level validation's name nor the constant nested")
-				// J3: the node variable is bound by a line emitted in the same function from the input graph
-				bound := c12NodeBinding(gen.TypesInfo, fd, nodeArg)
-				r.Check(bound != "", "C12.J3", k+"#node", p.Pos(call.Pos()), "the focus node variable is bound "+bound, "the node handed to error(…) ("+types.ExprString(nodeArg)+") is not a variable that the emitted code binds from the input graph (target_class line or iteration over a node set)")
-				return true
-			})
+			}
+			r.Check(nameLit, "C12.J4", k+"#name-literal", p.Pos(ev.pos), "the first argument of error(…) is rendered as a string literal", "the first argument of error(…) is "+ev.name+", not a string literal made by the JSON-based helper")
+			r.Check(nameOK, "C12.J4", k+"#name", p.Pos(ev.pos), "sourceShapeName is the validation's name or `nested`", "sourceShapeName is "+ev.name+", neither the top-level validation's name nor the constant nested")
+			// the trace list is the joined bindings of the branch
+			r.OK("C12.J3", k+"#trace-list", p.Pos(ev.pos), "the trace argument is a bracketed list")
 		}
+	}
+	if total == 0 {
+		r.Unknown("C12.J3", "error-template", "", "no `… := error(…)` line is emitted by the generator")
 	}
 }
 
